@@ -325,6 +325,18 @@ theorem c16_sufficient_controller (env : Env) (henv : EnvOK env) (known : List K
     (hnew : alGet m (env.lower c.name) = none) : ∃ m', syncUpstreamCluster env remote m c = .ok m' :=
   syncUpstreamCluster_ok env henv known c ((c16_accepts_iff_valid env known c).mp h) remote m hm hnew
 
+/-- plugin accepts ⇒ the controller does not refuse for a name conflict: the gateway already serves the OTHER clusters
+    the lister knows (`applyOthers`: the handler ran for each in turn; ones it refused are not served), whatever their
+    names and aliases and in whatever case they are spelled; an object the plugin accepted against that lister (its
+    own name not among them) is bootstrapped by the handler - no panic, no requeue. The plugin compares lower-cased
+    names on BOTH sides; the manager is keyed by lower-cased names: that is what the proof uses (`noConflict`,
+    `ServesOnly`, `EnvOK.lower_idem`). -/
+theorem c16_sufficient_controller_among_others (env : Env) (henv : EnvOK env) (others : List Cluster) (c : Cluster)
+    (h : validate env (others.map Cluster.toKnown) c = .ok [])
+    (hown : ∀ u ∈ others, env.lower u.name ≠ env.lower c.name) (remote : Bool) :
+    ∃ m', syncUpstreamCluster env remote (applyOthers env remote [] others) c = .ok m' :=
+  syncUpstreamCluster_among_others env henv others c ((c16_accepts_iff_valid env _ c).mp h) hown remote
+
 /-- the limiter server's handler applies every object (accepted or not) from every state without failing;
     its upstream condition then carries exactly the global members of the schemas -/
 theorem c16_sufficient_limiter_handler (u : Upstream) (c : Cluster) : ∃ u', upstreamConditionHandler u c = .ok u' :=
@@ -437,5 +449,14 @@ example : validate exEnv [⟨[111], [[121]]⟩] exCluster = .ok [] ∧ ManagerRe
       logModeOK, featureGateOK, mapGet, noConflict]
     decide
   · intro k ci h; simp [alGet] at h
+
+/-- ... and those of `c16_sufficient_controller_among_others`: another cluster with an alias is served already -/
+example : validate exEnv ([Known.toCluster ⟨[111], [[121]]⟩].map Cluster.toKnown) exCluster = .ok [] ∧
+    (∀ u ∈ [Known.toCluster ⟨[111], [[121]]⟩], exEnv.lower u.name ≠ exEnv.lower exCluster.name) := by
+  refine ⟨(c16_accepts_iff_valid _ _ _).mpr ?_, by decide⟩
+  simp [valid, usable, classes, exCluster, exSchemas, exEnv, endpointOK, sameScheme, schemeOf, exEndpoint_scheme,
+    clientTLSOK, servingOK, schemaOK, shapeOf, Shape.inRange, namesOK, policyRefsOK, clientLimitsOK, formOK, strategyOK,
+    logModeOK, featureGateOK, mapGet, noConflict, Known.toCluster, Cluster.toKnown]
+  decide
 
 end KG.Props.C16
